@@ -7,6 +7,13 @@
 (*   exh  (INVARIANT EmitDone, no simulation): all scenarios of the bounds      *)
 (*        given by VERIF_FILES / VERIF_DIR / VERIF_BIG                          *)
 (*   sim  (-simulate): random directories of 1..6 files over file-like paths    *)
+(*   hand (VERIF_HAND=1, with -simulate): the first file of every directory has   *)
+(*        k*B+1 .. k*B+HANDPAT chunks (k = 1, 2): with the real B = 8192 these     *)
+(*        are trees of three chunk levels whose root holds a lone carried data     *)
+(*        chunk (or a short last intermediate chunk) next to full intermediate     *)
+(*        chunks.  The driver writes such a tree chunk by chunk (content           *)
+(*        addressed, equal chunks once) instead of streaming > 2 GiB; plain only,  *)
+(*        observed inside a directory only.                                        *)
 (* The observations (traverse, hashes, pyramid) close every scenario.           *)
 EXTENDS Integers, Sequences, FiniteSets, TLC, Json, IOUtils
 
@@ -19,6 +26,8 @@ MaxFiles == EnvInt("VERIF_FILES", 1)
 DirMode  == EnvInt("VERIF_DIR", 0)       \* 0 single files only, 1 directories only, 2 both
 Big      == EnvInt("VERIF_BIG", 0)       \* 1: shapes with one block of B full chunks (three chunk levels with real constants)
 MaxPat   == EnvInt("VERIF_PAT", 3)
+Hand     == EnvInt("VERIF_HAND", 0)      \* 1: the first file is a hand-written tree of k*B + 1..HandPat chunks
+HandPat  == EnvInt("VERIF_HANDPAT", 2)
 MaxAlias == EnvInt("VERIF_ALIASES", 2)   \* further paths for already linked files
 EncMode  == EnvInt("VERIF_ENC", 2)       \* 0 plain only, 1 encrypted only, 2 both
 
@@ -29,6 +38,9 @@ SmallShapes == {s \in [a : {0}, u : {1}, pat : Pats(MaxPat), tail : 0..3] :
 \* B chunks exactly (full intermediate root), B+1 (lone-reference carry), B+2 (two intermediate chunks under the root)
 BigShapes == {[a |-> 1, u |-> 1, pat |-> p, tail |-> t] : p \in {<<>>, <<1>>, <<2, 1>>}, t \in {1, 2}}
 Shapes == IF Big = 1 THEN BigShapes ELSE SmallShapes
+\* k*B+1: lone data chunk carried to the root; k*B+2: a two-reference intermediate chunk as last fork of the root
+\* VERIF_HANDTAILS=1: only short last chunks, so that the last chunk is never equal to a repeated full chunk
+HandShapes == {s \in [a : 1..2, u : {1}, pat : Pats(HandPat), tail : (IF EnvInt("VERIF_HANDTAILS", 0) = 1 THEN 2..3 ELSE 1..3)] : Len(s.pat) >= 1}
 
 \* file-like paths over a=1 b=2 c=3 /=4: no leading, trailing or doubled separator, at most 4 letters
 Letters == IF EnvInt("VERIF_ALPHA", 3) = 2 THEN {1, 2, 4} ELSE 1..4     \* a smaller alphabet shares more prefixes
@@ -44,6 +56,7 @@ GInit == /\ enc \in (IF EncMode = 0 THEN {FALSE} ELSE IF EncMode = 1 THEN {TRUE}
          /\ files = <<>> /\ entries = <<>> /\ done = FALSE
 
 Upload(s) == /\ Len(files) < k
+             /\ (Hand = 1 /\ Len(files) = 0) <=> s \in HandShapes
              /\ files' = Append(files, s)
              /\ UNCHANGED <<enc, k, x, rootmeta, dir, entries, done>>
 
@@ -60,14 +73,15 @@ Close == /\ ~done /\ Len(files) = k /\ (dir => Len(entries) = k + x)
          /\ done' = TRUE
          /\ UNCHANGED <<enc, k, x, rootmeta, dir, files, entries>>
 
-GNext == \/ \E s \in Shapes : Upload(s)
+GNext == \/ \E s \in Shapes \cup HandShapes : Upload(s)
          \/ \E p \in PathPool : Link(p)
          \/ Close
 
 GSpec == GInit /\ [][GNext]_gvars
 
 Ops == [i \in 1..Len(files) |-> [op |-> "upload", f |-> i, a |-> files[i].a, u |-> files[i].u,
-                                  pat |-> files[i].pat, tail |-> files[i].tail]]
+                                  pat |-> files[i].pat, tail |-> files[i].tail,
+                                  hand |-> (Hand = 1 /\ files[i].a > 0)]]
        \o [i \in 1..Len(entries) |-> [op |-> "entry", p |-> entries[i].p, f |-> entries[i].f]]
        \o (IF dir THEN <<[op |-> "mkdir", rootmeta |-> rootmeta]>> ELSE <<>>)
        \o <<[op |-> "traverse"], [op |-> "hashes"], [op |-> "pyramid"]>>
